@@ -45,6 +45,11 @@ func HTyped(ctx erpc.CallCtx, arg *tok.Arg) (*tok.Arg, *erpc.Status) {
 }
 func HPush(ctx erpc.PushCtx, arg *[]byte) *erpc.Status { return nil }
 
+// HStruct is the echo handler for the thrift-struct protocol (bodies must be thrift structs).
+func HStruct(ctx erpc.CallCtx, arg *wire.TStruct) (*wire.TStruct, *erpc.Status) {
+	return &wire.TStruct{S: "ok:" + arg.S}, nil
+}
+
 type input struct {
 	Class   string // scenario class (fingerprint)
 	Bytes   []byte
@@ -195,7 +200,10 @@ func main() {
 	r := core.NewRand(*seed, int64(*batch), 6)
 
 	srv := erpc.NewPeer(erpc.PeerConfig{})
-	routes := map[string]string{"echo": srv.RouteCallFunc(HEcho), "typed": srv.RouteCallFunc(HTyped), "push": srv.RoutePushFunc(HPush)}
+	routes := map[string]string{"echo": srv.RouteCallFunc(HEcho), "typed": srv.RouteCallFunc(HTyped), "push": srv.RoutePushFunc(HPush), "struct": srv.RouteCallFunc(HStruct)}
+	if p.Struct {
+		routes["echo"] = routes["struct"] // the frames to mutate and the control probe carry thrift structs
+	}
 	ctlPeer := erpc.NewPeer(erpc.PeerConfig{})
 	ctl, err := bed.Connect(ctlPeer, srv, p.Func, p.Func, nil)
 	if err != nil {
@@ -317,7 +325,14 @@ func main() {
 		if k%4 == 0 || len(viols) > 0 {
 			arg := []byte("ctl")
 			var res []byte
-			st := ctl.A.Call(routes["echo"], arg, &res, erpc.WithBodyCodec(codec.ID_PLAIN)).Status()
+			var st *erpc.Status
+			if p.Struct {
+				var tres wire.TStruct
+				st = ctl.A.Call(routes["struct"], &wire.TStruct{S: "ctl"}, &tres, erpc.WithBodyCodec(codec.ID_THRIFT)).Status()
+				res = []byte(tres.S)
+			} else {
+				st = ctl.A.Call(routes["echo"], arg, &res, erpc.WithBodyCodec(codec.ID_PLAIN)).Status()
+			}
 			core.Add("control_probes", 1)
 			if !st.OK() || string(res) != "ok:ctl" {
 				viols = append(viols, [2]string{"control-session-broken", fmt.Sprintf("control session call failed after the input: %v %q", st, res)})
